@@ -128,6 +128,7 @@ def regionFeature (want got : List Region) (ents : List MemEntry) : String :=
 def oracle (st : St) (op : List String) (obs : String) : List (String × String) :=
   let tags := st.tags.toList
   let faulted := obs = "fault" ∨ obs.startsWith "fault " ∨ obs = "panic" ∨ obs.startsWith "panic "
+  if obs = "hang" then [("terminates", s!"op-{op.headD "?"}")] else
   if faulted then [("reads-in-bounds", s!"op-{op.headD "?"}")] else
   match op with
   | ["T", ty] =>
